@@ -3,6 +3,7 @@ Input : {"scenarios": [scenario...]}
   scenario = {"id": n, "kind": "seq", "steps": [step...]}                         one thread
            | {"id": n, "kind": "threads", "threads": [[step...], ...], "sync": [[ta, k, tb], ...]}
            | {"id": n, "kind": "gc", "n": builds, "prog": program}
+           | {"id": n, "kind": "repeat", "progs": [P...], "keys": [...], "n": rebuilds, "seed": s}
   step = {"k": "build", "prog": P, "key": str} | {"k": "probe"} | {"k": "junk", "n": int} | {"k": "desc", "prog": P}
        | {"k": "annotate", "n": int}   mutate in place the variants / metadata dictionaries of the definition this thread
          built last (a variant for one of its own controls, a note, a spec)
@@ -355,6 +356,24 @@ def main():
             r.steps(1, sc['steps'])
         elif sc['kind'] == 'threads':
             run_threads(r, sc)
+        elif sc['kind'] == 'repeat':
+            # every program built n times in a row in this process while unrelated objects of random sizes are allocated
+            # and KEPT between the builds, so that the unit objects of each rebuild land on other addresses (object
+            # addresses order id-hashed sets); one comparison event per build, Deterministic decides
+            import random
+            rnd = random.Random(sc.get('seed', 0))
+            keep = []
+            for k, prog in enumerate(sc['progs']):
+                for j in range(sc['n']):
+                    keep.append([object() for _ in range(rnd.randrange(1, 60))])
+                    try:
+                        rec = b.build(prog)
+                    except Exception as e:
+                        rec = dict(raised=1, err='unexpected-' + type(e).__name__, sha='')
+                    keep.append(rec)
+                    r.emit(e='det', f=sc['keys'][k], raised=rec['raised'], err='rebuild %d' % j, sha=rec['sha'])
+                if len(keep) > 4000:
+                    del keep[:2000]
         elif sc['kind'] == 'gc':
             pp = sys.argv[2] + '.prog.json'
             json.dump(sc['prog'], open(pp, 'w'))
